@@ -1885,10 +1885,11 @@ func (n *node) registerEvent(
 		event.last = lib.NewQueueLimitMPSC(int64(options.Buffer), true)
 	}
 
+	// the token must be there before the event becomes visible
+	event.token = n.MakeRef()
 	if _, exist := n.events.LoadOrStore(ev, event); exist {
 		return token, gen.ErrTaken
 	}
-	event.token = n.MakeRef()
 	return event.token, nil
 }
 
